@@ -50,6 +50,8 @@ type Report struct {
 	Samples      []interface{}  `json:"samples"`
 }
 
+var forcedVariant string
+
 func drive(args []string) int {
 	fs := flag.NewFlagSet("drive", flag.ExitOnError)
 	mode := fs.String("mode", "core", "core|contend|flow|churn|bytes")
@@ -59,7 +61,9 @@ func drive(args []string) int {
 	first := fs.Int("first", 0, "index of the first scenario")
 	rep := fs.String("report", "report.json", "report")
 	dir := fs.String("dir", "", "scratch dir")
+	variant := fs.String("variant", "", "restart mode: force one variant (genstall)")
 	fs.Parse(args)
+	forcedVariant = *variant
 	if *dir == "" {
 		d, _ := os.MkdirTemp("", "core-")
 		*dir = d
